@@ -323,6 +323,16 @@ impl ObjectReceiver {
             None => return false,
         };
 
+        if file.get_transfer_length() > 0xFFFFFFFFFFFF {
+            // The transfer length of an ALC object is 48 bits max (EXT_FTI)
+            log::warn!(
+                "Transfer length {} of TOI {} is not valid",
+                file.get_transfer_length(),
+                self.toi
+            );
+            return false;
+        }
+
         #[cfg(feature = "opentelemetry")]
         if self.logger.is_none() {
             let propagator = file.get_optel_propagator();
